@@ -7,7 +7,10 @@
 // last copy dies, user buffer never freed.
 // Built with -fno-access-control: private fields are read ONLY to build the canonical state
 // key used for de-duplication (never asserted).
+#include <sys/mman.h>
+
 #include <memory>
+#include <set>
 
 #include "common/histbfs.hpp"
 #include "common/runner.hpp"
@@ -31,8 +34,24 @@ struct BaseLedger {
     if (!errors) first_error = e;
     errors++;
   }
+  // chunks above kBigChunk are address space only (mmap, MAP_NORESERVE): the huge-request configurations never touch
+  // more than a few pages of them
+  static constexpr size_t kBigChunk = (size_t)1 << 24;
+  static void release(char* p, size_t size) {
+    if (size >= kBigChunk)
+      munmap(p, (size + 4095) & ~(size_t)4095);
+    else
+      std::free(p);
+  }
+  size_t small_bytes() const {
+    size_t n = 0;
+    for (auto& kv : live)
+      if (kv.second < kBigChunk) n += kv.second + sizeof(std::_Rb_tree_node<std::pair<char* const, size_t>>);
+      else n += sizeof(std::_Rb_tree_node<std::pair<char* const, size_t>>);
+    return n;
+  }
   void reset() {
-    for (auto& kv : live) std::free(kv.first);
+    for (auto& kv : live) release(kv.first, kv.second);
     live.clear();
     errors = 0;
     first_error.clear();
@@ -47,8 +66,17 @@ class TrackBase {
  public:
   void* Malloc(size_t size) {
     if (!size) return nullptr;
-    char* p = (char*)std::malloc(size);
-    std::memset(p, 0xEE, size);
+    char* p;
+    if (size >= BaseLedger::kBigChunk) {
+      p = (char*)mmap(nullptr, (size + 4095) & ~(size_t)4095, PROT_READ | PROT_WRITE, MAP_PRIVATE | MAP_ANONYMOUS | MAP_NORESERVE, -1, 0);
+      if (p == (char*)MAP_FAILED) {
+        BL().err("harness: mmap of a huge chunk failed");
+        return nullptr;
+      }
+    } else {
+      p = (char*)std::malloc(size);
+      std::memset(p, 0xEE, size);
+    }
     BL().live[p] = size;
     BL().mallocs++;
     return p;
@@ -65,22 +93,27 @@ class TrackBase {
       BL().err("chunk freed twice or foreign pointer passed to the base allocator");
       return;
     }
+    size_t sz = it->second;
     BL().live.erase(it);
     BL().frees++;
-    std::free(p);
+    BaseLedger::release((char*)p, sz);
   }
   static constexpr bool kNeedFree = true;
 };
 
-static const size_t kSizes[12] = {0, 1, 7, 8, 9, 16, 56, 63, 64, 65, 128, 200};
+static const size_t kSizesSmall[12] = {0, 1, 7, 8, 9, 16, 56, 63, 64, 65, 128, 200};
+// requests around the 32-bit boundary: any size arithmetic done in a narrower type than size_t shows here
+static const size_t kSizesHuge[12] = {0, 8, 64, 200, ((size_t)1 << 31) + 8, ((size_t)1 << 32) - 8, ((size_t)1 << 32) - 1, (size_t)1 << 32, ((size_t)1 << 32) + 1, ((size_t)1 << 32) + 8, ((size_t)1 << 32) + 64, ((size_t)1 << 33) + 24};
+static constexpr size_t kProbe = 4096;  // blocks larger than 2*kProbe are written / checked at both ends only
 static size_t al8(size_t x) { return (x + 7) & ~(size_t)7; }
 
-enum Cfg { DEFAULT_BASE = 0, OWN_BASE = 1, USERBUF_EXACT = 2, USERBUF_8 = 3, USERBUF_64 = 4, USERBUF_MISALIGNED = 5, USERBUF_NOBASE = 6, USERBUF_ODD69 = 7, CHUNK_ODD100 = 8, USERBUF_MIS1 = 9, USERBUF_MIS3 = 10 };
+enum Cfg { HUGE_REQUESTS = 11, DEFAULT_BASE = 0, OWN_BASE = 1, USERBUF_EXACT = 2, USERBUF_8 = 3, USERBUF_64 = 4, USERBUF_MISALIGNED = 5, USERBUF_NOBASE = 6, USERBUF_ODD69 = 7, CHUNK_ODD100 = 8, USERBUF_MIS1 = 9, USERBUF_MIS3 = 10 };
 
 template <class Policy, int CFG>
 struct AllocSim {
   using Pool = MemoryPoolAllocator<TrackBase, Policy>;
   static constexpr size_t kChunk = 64;
+  static constexpr const size_t* kSizes = CFG == HUGE_REQUESTS ? kSizesHuge : kSizesSmall;
   static constexpr size_t kHdr = sizeof(void*) * 7;  // upper bound used only to size the user buffer; real header sizes are read from the type
   TrackBase base;
   alignas(16) char userbuf[512];
@@ -109,7 +142,7 @@ struct AllocSim {
     std::memset(userbuf, 0xDD, sizeof userbuf);
     const size_t hdr = Pool::SIZEOF_SHARED_DATA + Pool::SIZEOF_CHUNK_HEADER;
     switch (CFG) {
-      case DEFAULT_BASE: h[0] = new Pool(kChunk, &base); break;
+      case DEFAULT_BASE: case HUGE_REQUESTS: h[0] = new Pool(kChunk, &base); break;
       case OWN_BASE: h[0] = new Pool(kChunk); break;
       case USERBUF_EXACT: ub_begin = userbuf; ub_len = hdr; h[0] = new Pool(ub_begin, ub_len, kChunk, &base); break;
       case USERBUF_8: ub_begin = userbuf; ub_len = hdr + 8; h[0] = new Pool(ub_begin, ub_len, kChunk, &base); break;
@@ -179,7 +212,13 @@ struct AllocSim {
     auto lv = live_idx();
     if (op < 12) return lv.size() < 4;
     if (op < 24) return lv.size() < 4 && alive_count() >= 2;
-    if (op < 72) return (op - 24) / 12 < lv.size();
+    if (op < 72) {
+      if (!((op - 24) / 12 < lv.size())) return false;
+      // growing a multi-gigabyte block may legitimately copy it: only shrinking / same-size Reallocs of such blocks
+      const Blk& ob = blocks[(size_t)lv[(op - 24) / 12]];
+      if (ob.size > ((size_t)1 << 24) && al8(kSizes[(op - 24) % 12]) > al8(ob.size)) return false;
+      return true;
+    }
     if (op < 84) return lv.size() < 4;
     switch (op) {
       case 84: return true;
@@ -209,23 +248,44 @@ struct AllocSim {
     }
     return false;
   }
-  void fill(Blk& b) { std::memset(b.p, b.pat, b.size); }
+  static void fill_range(char* p, size_t n, uint8_t pat) {
+    if (n <= 2 * kProbe) {
+      std::memset(p, pat, n);
+      return;
+    }
+    std::memset(p, pat, kProbe);
+    std::memset(p + n - kProbe, pat, kProbe);
+  }
+  // first index in [0,n) (probed part only) whose byte differs from pat, or n
+  static size_t first_diff(const char* p, size_t n, uint8_t pat) {
+    if (n <= 2 * kProbe) {
+      for (size_t i = 0; i < n; i++)
+        if ((uint8_t)p[i] != pat) return i;
+      return n;
+    }
+    for (size_t i = 0; i < kProbe; i++)
+      if ((uint8_t)p[i] != pat) return i;
+    for (size_t i = n - kProbe; i < n; i++)
+      if ((uint8_t)p[i] != pat) return i;
+    return n;
+  }
+  void fill(Blk& b) { fill_range(b.p, b.size, b.pat); }
   void verify(vr::Ctx& ctx, const std::string& tr) {
     if (BL().errors) ctx.violation("base_ledger", "alloc_base_ledger", tr, "%s", BL().first_error.c_str());
     for (auto& b : blocks) {
       if (!b.live) continue;
-      for (size_t i = 0; i < b.size; i++)
-        if ((uint8_t)b.p[i] != b.pat) {
-          ctx.violation("contents_disturbed", "alloc_contents_disturbed", tr, "block of %zu bytes at %p: byte %zu changed from %02x to %02x", b.size, (void*)b.p, i, b.pat, (uint8_t)b.p[i]);
-          break;
-        }
+      // a block that does not lie inside a chunk was already reported; touching it could fault
+      if (!in_some_chunk(b.p, b.size, nullptr)) continue;
+      size_t i = first_diff(b.p, b.size, b.pat);
+      if (i < b.size)
+        ctx.violation("contents_disturbed", "alloc_contents_disturbed", tr, "block of %zu bytes at %p: byte %zu changed from %02x to %02x", b.size, (void*)b.p, i, b.pat, (uint8_t)b.p[i]);
     }
 #if defined(__SANITIZE_ADDRESS__)
     {
       // heap footprint, every step: everything the pool holds must be explained by the chunks it obtained
       // from the base allocator, the handle objects, and at most one self-created base allocator object
       size_t ledger = 0;
-      for (auto& kv : BL().live) ledger += kv.second + sizeof(std::_Rb_tree_node<std::pair<char* const, size_t>>);
+      ledger = BL().small_bytes();
       size_t nh = (h[0] != nullptr) + (h[1] != nullptr) + (h[2] != nullptr);
       long slack = (long)heap_bytes() - (long)heap0 - (long)ledger - (long)(nh * sizeof(Pool));
       long lo = (CFG == OWN_BASE && !pool_dead) ? (long)sizeof(TrackBase) : 0;
@@ -265,7 +325,7 @@ struct AllocSim {
     new_block(p, s, ctx, tr, "Malloc");
     Blk b{p, s, next_pat++, true, al8(s)};
     if (next_pat == 0) next_pat = 1;
-    fill(b);
+    if (in_some_chunk(b.p, b.size, nullptr)) fill(b);
     blocks.push_back(b);
     last = (int)blocks.size() - 1;
     model_size += al8(s);
@@ -294,11 +354,13 @@ struct AllocSim {
         ctx.violation("null_result", "alloc_null_result", tr, "Realloc(p,%zu,%zu) returned null", old.size, ns);
       } else {
         size_t keep = std::min(old.size, ns);
-        for (size_t i = 0; i < keep; i++)
-          if ((uint8_t)p[i] != old.pat) {
+        if (in_some_chunk(p, keep, nullptr)) {
+          // (for blocks probed at both ends only, the prefix is checked where the old block was written)
+          size_t i = keep <= 2 * kProbe || old.size == keep ? first_diff(p, keep, old.pat) : first_diff(p, std::min(keep, kProbe), old.pat);
+          size_t lim = keep <= 2 * kProbe || old.size == keep ? keep : std::min(keep, kProbe);
+          if (i < lim)
             ctx.violation("realloc_prefix", "alloc_realloc_prefix", tr, "Realloc(p,%zu,%zu): byte %zu of the result is %02x, expected the old contents %02x", old.size, ns, i, (uint8_t)p[i], old.pat);
-            break;
-          }
+        }
         if (al8(ns) <= al8(old.size)) {
           // shrinking or same aligned size: nothing new is handed out; any in-bounds answer holding the prefix is fine,
           // but a *new* pointer must be a valid fresh block
@@ -338,10 +400,10 @@ struct AllocSim {
           }
           Blk& nb = (p == old.p) ? blocks[bi] : blocks.back();
           // fill the new tail with the block's pattern so that later disturbance is visible
-          std::memset(nb.p, nb.pat, nb.size);
+          if (in_some_chunk(nb.p, nb.size, nullptr)) fill(nb);
         }
         Blk& nb = (p == old.p) ? blocks[bi] : blocks.back();
-        std::memset(nb.p, nb.pat, nb.size);
+        if (in_some_chunk(nb.p, nb.size, nullptr)) fill(nb);
       }
     } else if (op < 84) {
       size_t ns = kSizes[op - 72];
@@ -354,7 +416,7 @@ struct AllocSim {
         new_block(p, ns, ctx, tr, "Realloc(null)");
         Blk b{p, ns, next_pat++, true, al8(ns)};
         if (next_pat == 0) next_pat = 1;
-        fill(b);
+        if (in_some_chunk(b.p, b.size, nullptr)) fill(b);
         blocks.push_back(b);
         last = (int)blocks.size() - 1;
         model_size += al8(ns);
@@ -510,6 +572,9 @@ int main(int argc, char** argv) {
   explore<AllocSim<AdaptiveChunkPolicy, CHUNK_ODD100>>(R, "A_adaptive_chunk100", d_side, extra, states, trans, args, rrc);
   explore<AllocSim<SimpleChunkPolicy, USERBUF_MIS1>>(R, "A_simple_userbuf_mis1", d_side, extra, states, trans, args, rrc);
   explore<AllocSim<SimpleChunkPolicy, USERBUF_MIS3>>(R, "A_simple_userbuf_mis3", d_side, extra, states, trans, args, rrc);
+  // requests of 2^31, 2^32 +- a few bytes, 2^33 (chunks are address space only)
+  explore<AllocSim<SimpleChunkPolicy, HUGE_REQUESTS>>(R, "A_simple_huge", d_side, extra, states, trans, args, rrc);
+  explore<AllocSim<AdaptiveChunkPolicy, HUGE_REQUESTS>>(R, "A_adaptive_huge", d_side, extra, states, trans, args, rrc);
   if (args.replay) return rrc < 0 ? 2 : rrc;
   std::string ej = "\"states\": " + std::to_string(states) + ", \"transitions\": " + std::to_string(trans) + ", \"explorers\": {" + extra + "}";
   return R.finish(ej);
